@@ -108,8 +108,12 @@ def mmStepM (ps : PState) (_i : Nat) (toks : List String) : PState × StepOut :=
     | .ten aId x, .ten bId y =>
       if via == "meth" then vv aId x y
       else if !isScalar y.shape && !isScalar x.shape then vv aId x y
-      else if !isScalar y.shape then sc ps.st bId y { win := scalarWin x.win, dt := x.dt } false
-      else sc ps.st aId x { win := scalarWin y.win, dt := y.dt } true
+      else if !isScalar y.shape then
+        let (st, s) := tenScalar ps.st x
+        sc st bId y s false
+      else
+        let (st, s) := tenScalar ps.st y
+        sc st aId x s true
     | .ten aId x, .lit l dt =>
       let (st, s) := litScalar ps.st l (dt.getD x.dt)
       sc st aId x s true
